@@ -3,7 +3,7 @@ import GeffModel.Ctc
 open Lean Geff Geff.Proto Geff.Ctc
 
 /-! request: {"ndim":2|3, "frames":[[{"l":label,"c":[tok,…]},…],…], "table":[[L,B,E,P],…]}
-answer : {"consistent":bool (the Bool decider of the theorems' consistency hypothesis), "ok":{"ids":[…],"tracklet":[…],"t":[…],"coords":[[name,[tok,…]],…],"edges":[[a,b],…],
+answer : {"consistent":[consistentB, wfB, sortedB] (the Bool deciders of the theorems' hypotheses), "ok":{"ids":[…],"tracklet":[…],"t":[…],"coords":[[name,[tok,…]],…],"edges":[[a,b],…],
                 "axes":[[name,type],…]}}  or  {"exc":"ValueError"|"KeyError"|"IndexError"} -/
 
 def getRegion (j : Json) : Except String Region := do
@@ -34,7 +34,8 @@ def handle (j : Json) : Except String Json := do
   let frames ← (← (← j.getObjVal? "frames").getArr?).toList.mapM
     (fun fr => do (← fr.getArr?).toList.mapM getRegion)
   let table ← (← (← j.getObjVal? "table").getArr?).toList.mapM getRow
-  let cons := Json.bool (consistentB ⟨ndim, frames, table⟩)
+  let ds : Dataset := ⟨ndim, frames, table⟩
+  let cons := Json.arr #[Json.bool (consistentB ds), Json.bool (wfB ds), Json.bool (sortedB ds)]
   match fromCtc ⟨ndim, frames, table⟩ with
   | .ok o =>
     return Json.mkObj [("consistent", cons), ("ok", Json.mkObj [
